@@ -219,6 +219,44 @@ def _replace_returns_in_loop(loop, mk):
     return loop
 
 
+def _is_static(fn):
+    return isinstance(fn, (ast.FunctionDef, ast.AsyncFunctionDef)) and any(isinstance(d, ast.Name) and d.id == 'staticmethod' for d in fn.decorator_list)
+
+
+def _const_truth(t):
+    if isinstance(t, ast.Constant) and isinstance(t.value, (bool, int, type(None))):
+        return bool(t.value)
+    if isinstance(t, ast.UnaryOp) and isinstance(t.op, ast.Not):
+        v = _const_truth(t.operand)
+        return None if v is None else (not v)
+    if isinstance(t, ast.Compare) and len(t.ops) == 1 and isinstance(t.left, ast.Constant) and isinstance(t.comparators[0], ast.Constant) \
+            and isinstance(t.ops[0], (ast.Is, ast.IsNot, ast.Eq, ast.NotEq)):
+        a, b = t.left.value, t.comparators[0].value
+        if isinstance(t.ops[0], (ast.Is, ast.IsNot)) and not (a is None or b is None or isinstance(a, bool) or isinstance(b, bool)):
+            return None
+        same = (a is b) if isinstance(t.ops[0], (ast.Is, ast.IsNot)) else (a == b)
+        return same if isinstance(t.ops[0], (ast.Is, ast.Eq)) else (not same)
+    return None
+
+
+def _fold_const_ifs(stmts):
+    out = []
+    for st in stmts:
+        if isinstance(st, ast.If):
+            v = _const_truth(st.test)
+            if v is not None:
+                out.extend(_fold_const_ifs(st.body if v else st.orelse))
+                continue
+            st = copy.copy(st)
+            st.body = _fold_const_ifs(st.body) or [ast.Pass()]
+            st.orelse = _fold_const_ifs(st.orelse)
+        elif isinstance(st, (ast.For, ast.While, ast.With)):
+            st = copy.copy(st)
+            st.body = _fold_const_ifs(st.body) or [ast.Pass()]
+        out.append(st)
+    return out
+
+
 def _inline_call(methods, call, how, target, depth, stop=(), ho_only=False, impure=False):
     """-> list of statements replacing the statement that contains `call`, or None"""
     f = call.func
@@ -231,7 +269,8 @@ def _inline_call(methods, call, how, target, depth, stop=(), ho_only=False, impu
         callee = methods['func:' + f.id]
         params = [a.arg for a in callee.args.args]
     else:
-        if not (isinstance(f, ast.Attribute) and isinstance(f.value, ast.Name) and f.value.id == 'self' and f.attr in methods
+        if not (isinstance(f, ast.Attribute) and isinstance(f.value, ast.Name) and f.attr in methods
+                and (f.value.id == 'self' or _is_static(methods[f.attr]))      # ClassName._h(...) of a static helper
                 and f.attr.startswith('_') and not f.attr.startswith('__')) or f.attr in stop:
             return None
         if ho_only and not any(isinstance(a, ast.Attribute) and isinstance(a.value, ast.Name) and a.value.id == 'self' and a.attr in methods
@@ -299,6 +338,7 @@ def _inline_call(methods, call, how, target, depth, stop=(), ho_only=False, impu
             for rn, tn in zip(r_names, t_names):
                 mapping[rn.id] = tn.id
     body = [_Subst(mapping).visit(copy.deepcopy(s)) for s in body]
+    body = _fold_const_ifs(body)          # a flag parameter bound to a literal at this call site selects its branch
     if not search_loop:
         body = _nest_guards(body)
 
@@ -391,7 +431,8 @@ def _is_private_helper_call(methods, c, stop):
         return f.id not in stop
     if isinstance(f, ast.Name):
         return ('func:' + f.id) in methods and f.id.startswith('_') and not f.id.startswith('__') and f.id not in stop
-    return isinstance(f, ast.Attribute) and isinstance(f.value, ast.Name) and f.value.id == 'self' and f.attr in methods \
+    return isinstance(f, ast.Attribute) and isinstance(f.value, ast.Name) and f.attr in methods \
+        and (f.value.id == 'self' or _is_static(methods[f.attr])) \
         and f.attr.startswith('_') and not f.attr.startswith('__') and f.attr not in stop
 
 
